@@ -22,7 +22,7 @@ void verif_error_va (int code, const char *fmt, ...);
 static void check_cstr (const char *a)
 {
   size_t room = __CPROVER_OBJECT_SIZE (a) - __CPROVER_POINTER_OFFSET (a), k; _Bool found = 0;
-  for (k = 0; k < room && k < 256; k++) if (a[k] == '\0') { found = 1; break; }
+  for (k = 0; k < room && k < 124; k++) if (a[k] == '\0') { found = 1; break; }
   __CPROVER_assert (found, "string argument of the error message is NUL-terminated inside its object");
 }
 void verif_error_va (int code, const char *fmt, ...)
@@ -43,7 +43,7 @@ void h_codes (void)
   struct sterm R[NR]; int n, i, k, rc; int name_of[NR], code_of[NR];
   __CPROVER_assume (n >= 1 && n <= NR);
   for (i = 0; i < NR; i++)
-    { _Bool b; int c; __CPROVER_assume (c == -1 || (c >= 0 && c <= 300)); name_of[i] = b; code_of[i] = c; R[i].repr = NAMES[b]; R[i].code = c; R[i].num = i; }
+    { int b; int c; __CPROVER_assume (b == 0 || b == 1); __CPROVER_assume (c == -1 || (c >= 0 && c <= 300)); name_of[i] = b; code_of[i] = c; R[i].repr = NAMES[b]; R[i].code = c; R[i].num = i; }
   sterms.vlo_start = (char *) R; sterms.vlo_free = (char *) (R + n); sterms.vlo_boundary = (char *) (R + NR);
   gh_raised = 0;
   rc = verif_sgrammar_tail (256);
@@ -84,7 +84,7 @@ void h_codes_conflict (void)
 void h_codes_longname (void)
 {
   struct sterm R[2]; char *name; size_t len;
-  __CPROVER_assume (len >= 1 && len <= 140);
+  __CPROVER_assume (len >= 1 && len <= 120);
   name = malloc (len + 1); __CPROVER_assume (name != NULL); name[len] = '\0';
   { size_t q; HAVOC (q); __CPROVER_assume (q < len); __CPROVER_assume (name[q] != '\0'); }
   R[0].repr = name; R[0].code = 1; R[0].num = 0; R[1].repr = name; R[1].code = 2; R[1].num = 1;
